@@ -269,7 +269,12 @@ Qed.
 
 (* ---- (6) the specification at the strength of the property text: what the monitor evaluates ---- *)
 Lemma carries_weaken c i s : carries_b c i s = true -> carries_p_b c i s = true.
-Proof. unfold carries_b, carries_p_b. intros E. apply andb_prop in E. exact (proj1 E). Qed.
+Proof.
+  unfold carries_b, carries_p_b, display. intros E.
+  apply andb_prop in E. destruct E as [E _]. apply andb_prop in E. destruct E as [E E4].
+  apply andb_prop in E. destruct E as [E E3]. apply andb_prop in E. destruct E as [E1 E2].
+  rewrite E1, E3, E4. destruct (c_qualify c); rewrite E2; cbn; [reflexivity|now rewrite orb_true_r].
+Qed.
 Lemma stmts_weaken c h d : stmts_carry_b c h d = true -> stmts_promised_b c h d = true.
 Proof.
   unfold stmts_carry_b, stmts_promised_b. rewrite !forallb_forall. intros H s Hs. specialize (H s Hs).
